@@ -31,6 +31,31 @@ that volume (x1e-6 placements) are judged like any other; what is NOT judged is 
 of a surface whose exact volume is 0 or lost in the rounding of the volume integral itself
 (|V| < 1e3 x the volume tolerance): there the centre of mass is 0/0.
 
+Solids away from the origin (round 4): the tolerance above is the rounding of an evaluation about
+the WORLD ORIGIN (its terms grow like D^3 L^2 for a solid of size L at distance D and cancel to L^5),
+so it accepts a loss of (D/L)^2 digits that the data do not force: the coordinates fl(x - ref) about
+any point of the bounding box are exact to one rounding.  "Up to floating-point rounding" is judged
+as the rounding of a translation-invariant evaluation: 64 eps sum|terms| with the terms taken about
+the minimum corner of the bounding box (the least favourable reference inside the box), plus the
+rounding of adding the reference back to the centre of mass.  A value inside the origin-anchored
+tolerance but outside the translation-invariant one is reported under its own mechanism key
+(input=offset_from_origin sym=origin_anchored_cancellation; one key per route family, whichever of
+volume / centre / tensor shows it), a centre reported as exactly [0,0,0] for a solid at D/L = 1e14
+under (input=offset_beyond_1e12_sizes sym=zeroed).  Anything outside the origin-anchored tolerance
+keeps sym=wrong_value.
+
+Extreme scales (round 4): area and volume of solids scaled by 1e-80, 1e-90, 1e+90 (both values are
+ordinary float64 numbers there; centre / tensor are not judged, L^5 leaves the float range).
+
+Primitives (round 4): Box / Cylinder / Capsule / Sphere / Extrusion objects are closed triangle
+meshes with the same accessors.  Their documented-analytic accessors (volume, area, moment_inertia of
+Cylinder / Sphere) describe the ideal shape and are NOT compared with the integrals over the
+tessellation (property C15); what is judged on them are the laws of the second sentence - density
+scales mass and every reported tensor linearly, an override is reported back and moment_inertia moves
+to it by the parallel-axis law from the tensor reported before - and `mass_properties` /
+`moment_inertia_frame` (computed from the triangles by base.py) against the exact integrals of the
+primitive's own vertices and faces.
+
 Histories: the same quantities after the library copied the mesh (with / without its cache) and one
 of the two objects was edited (density, override, transform, invert, vertices): every object of the
 family is judged after every step against the exact integrals of ITS OWN solid, density, override.
@@ -54,6 +79,10 @@ RULE = (
     "torus, disjoint / nested-cavity / overlapping multi-body shells, inverted copies, zero-volume "
     "pillows) x placements (as is, +1e3, x1e3, x1e-3, (+1e3)x1e-3, x1e-6, (+1e3)x1e-6) x densities {default,0.5,1,7.25,1e3} x "
     "centre-of-mass override {none, 2 points} x ~20 rational frames, mesh-level and free-function routes; "
+    "far placements (+1e6, (+UTM-like vector)x0.37, +1e15) judged with the rounding of a translation-invariant evaluation; "
+    "extreme scales (x1e-80, x1e-90, x1e+90: area and volume only); "
+    "primitive objects (Box, Cylinder, Capsule, Sphere, Extrusion; random parameters and rigid placement) x density x override x "
+    "{values read before the setter, not read}: density / override laws and the triangle-derived values; "
     "histories over a family of objects related by copy(include_cache in {True, False}): read / copy / set "
     "density / set override / integer transform / invert / assign vertices, all objects judged after every step. "
     "A case is one (mesh, placement, route, density, override[, frame]) evaluation; distinct = distinct "
@@ -74,6 +103,8 @@ ANCHORS = [
     "trimesh/base.py:Trimesh.principal_inertia_components",
     "trimesh/inertia.py:transform_inertia",
     "trimesh/inertia.py:principal_axis",
+    "trimesh/primitives.py:Cylinder.moment_inertia",
+    "trimesh/primitives.py:Sphere.moment_inertia",
 ]
 SHARDS = {"quick": 1, "thorough": 8}
 BUDGET = {"quick": 40, "thorough": 300}
@@ -84,6 +115,9 @@ ASSUMPTIONS = [
     "an overridden centre of mass c' means: reported as given; moment_inertia = exact second moments of the solid about c'; "
     "other frames by the parallel-axis law from (c', that tensor)",
     "moment_inertia_frame(T): tensor about the origin of T expressed in the axes of T (columns of T[:3,:3])",
+    "'up to floating-point rounding' = 64 eps sum|terms| of a surface-integral evaluation about the minimum corner of the "
+    "bounding box (translation invariant), plus 4 eps |c| for the centre of mass",
+    "documented-analytic accessors of primitives describe the ideal shape (C15); only the density / override laws are asserted on them",
 ]
 EXHAUSTIVE = {"quick": False, "thorough": False}
 
@@ -101,6 +135,14 @@ TINY_PLACEMENTS = (
     ("scaled_1e-6", 1e-6, 0.0),
     ("translated_scaled_1e-6", 1e-6, 1000.0),
 )
+# solids away from the origin: integer mesh + 1e6 (exactly representable), a UTM-like offset with a
+# non-dyadic scale, and D/L ~ 1e14 (integers up to 2^53 are exact: the solid is what the mesh holds)
+FAR_PLACEMENTS = (
+    ("translated_1e6", 1.0, 1e6),
+    ("translated_utm_scaled", 0.37, (4.1e5, 4.6e6, 120.0)),
+    ("translated_1e15", 1.0, 1e15),
+)
+EXTREME_SCALES = (("scaled_1e-80", 1e-80), ("scaled_1e-90", 1e-90), ("scaled_1e+90", 1e90))
 TOL_ZERO = 1e-12  # trimesh.constants.tol.zero, the documented constant (input class of a key only)
 
 
@@ -109,7 +151,8 @@ TOL_ZERO = 1e-12  # trimesh.constants.tol.zero, the documented constant (input c
 
 
 def place(V, scale, trans):
-    return (np.asarray(V, dtype=np.float64) + float(trans)) * float(scale)
+    # trans: a number or a 3-vector (added before scaling)
+    return (np.asarray(V, dtype=np.float64) + np.asarray(trans, dtype=np.float64)) * float(scale)
 
 
 def _max_ratio(got, want, tol):
@@ -136,13 +179,26 @@ class Ctx:
         self.Vf = place(V, scale, trans)
         self.ex = exact_mass(self.Vf, self.F)
         self.vol = float(self.ex.volume)
+        # the same solid seen from the minimum corner of its bounding box: tolerances of a
+        # translation-invariant evaluation (module docstring)
+        self.ref = np.min(self.Vf, axis=0) if len(self.Vf) else np.zeros(3)
+        self.loc = self.ex.local(self.ref)
         # a solid whose volume is exactly 0 or within the rounding of the volume integral has no
         # centre of mass to speak of (0/0); everything else is judged, however small
-        self.solid = self.ex.volume != 0 and abs(self.vol) >= 1e3 * self.ex.tol_volume()
+        self.solid = self.ex.volume != 0 and abs(self.vol) >= 1e3 * min(self.ex.tol_volume(), self.loc.tol_volume())
         self.below_tol_zero = self.solid and abs(self.vol) < TOL_ZERO
+        # D/L beyond 1e12: the input class of the key sym=zeroed of far placements
+        ext = float(np.max(np.ptp(self.Vf, axis=0))) if len(self.Vf) else 0.0
+        self.beyond_1e12_sizes = self.solid and ext > 0 and float(np.abs(self.Vf).max()) > 1e12 * ext
         if self.solid:
             self.c = self.ex.f(self.ex.center_mass())
             self.tc = self.ex.tol_center_mass()
+            # translation-invariant tolerances: volume, centre (local + rounding of ref + c_local), tensor
+            self.c_loc = self.loc.f(self.loc.center_mass())
+            self.tc_loc = self.loc.tol_center_mass()
+            self.tv_t = self.loc.tol_volume()
+            self.tc_t = self.tc_loc + 4 * EPS * np.abs(self.c)
+            self.tI_t = self.loc.tol_inertia(self.c_loc, self.tc_loc)
         self.worst = 0.0
         self.named = set()
         self.unnamed = 0
@@ -155,11 +211,18 @@ class Ctx:
         d.update(extra)
         return d
 
-    def judge(self, route, qty, got, want, tol, density="default", override="no", alts=(), **extra):
+    def tight_inertia(self, I, rho):
+        """translation-invariant tolerance of the tensor about the centre of mass, density rho"""
+        return self.tI_t * abs(rho) * (1 + 4 * EPS) + 4 * EPS * np.abs(I)
+
+    def judge(self, route, qty, got, want, tol, density="default", override="no", alts=(), tight=None, **extra):
         """
         Compare; split matrices into diag / offdiag so the key names the symptom.
         alts: ((key, value, tol), ...) - a wrong value that equals one of these known-mechanism
         values is reported under `key` (route family only) instead of sym=wrong_value.
+        tight: the tolerance of a translation-invariant evaluation; a value inside `tol` (the
+        rounding of an evaluation about the world origin) but outside `tight` is reported under
+        K_CANCEL (route family only, one key whatever the quantity).
         """
         self.run.count("comparisons")
         want = np.asarray(want, dtype=np.float64)
@@ -188,9 +251,15 @@ class Ctx:
         ok = True
         for name, mask in parts:
             r = _max_ratio(got_a[mask], want[mask], tol[mask])
+            rt = 0.0
+            if tight is not None:
+                tt = np.broadcast_to(np.asarray(tight, dtype=np.float64), want.shape)
+                rt = _max_ratio(got_a[mask], want[mask], tt[mask])
+                if r <= 1.0:
+                    self.worst_tight = max(getattr(self, "worst_tight", 0.0), min(rt, 1e300))
             if r <= 1.0:
                 self.worst = max(self.worst, r)
-            if r > 1.0:
+            if r > 1.0 or rt > 1.0:
                 ok = False
                 named = None
                 for akey, aval, atol in alts:
@@ -199,11 +268,23 @@ class Ctx:
                     if aval.shape == want.shape and _max_ratio(got_a[mask], aval[mask], atol[mask]) <= 1.0:
                         named = akey
                         break
+                if named is None and r <= 1.0:
+                    # inside the rounding of an origin-anchored evaluation, outside that of a
+                    # translation-invariant one
+                    self.named.add(K_CANCEL)
+                    self.run.violation(
+                        "route=%s %s" % (route.split(":")[0].split("_")[0], K_CANCEL),
+                        "%s from %s differs from the exact integral by %.3g x the rounding of a translation-invariant "
+                        "evaluation (%.3g x that of an evaluation about the world origin)" % (name, route, rt, r),
+                        self.base_case(route=route, qty=name, got=got_a, expected=want, tol=tol, tight=tight,
+                                       ratio=rt, **extra),
+                    )
+                    continue
                 if named is not None:
                     self.named.add(named)
                     self.run.violation(
                         "route=%s qty=%s %s" % (route.split(":")[0].split("_")[0], qty, named),
-                        "%s from %s differs from the exact integral by %.3g x the rounding tolerance (%s)" % (name, route, r, named),
+                        "%s from %s differs from the exact integral by %.3g x the rounding tolerance (%s)" % (name, route, max(r, rt), named),
                         self.base_case(route=route, qty=name, got=got_a, expected=want, tol=tol,
                                        ratio=r, **extra),
                     )
@@ -221,6 +302,8 @@ class Ctx:
 K_ANCHORED = "override=yes sym=origin_anchored_shift"
 K_ZEROED = "input=abs_volume_below_tol_zero sym=zeroed"
 K_ABOUT_ORIGIN = "input=abs_volume_below_tol_zero sym=about_origin"
+K_CANCEL = "input=offset_from_origin sym=origin_anchored_cancellation"
+K_FAR_ZEROED = "input=offset_beyond_1e12_sizes sym=zeroed"
 
 
 def _override_tol_extra(ctx, ov):
@@ -239,7 +322,14 @@ def _override_tol_extra(ctx, ov):
 def _center_alts(ctx, center_override):
     if center_override is None and ctx.below_tol_zero:
         return ((K_ZEROED, np.zeros(3), 0.0),)
+    if center_override is None and ctx.beyond_1e12_sizes:
+        return ((K_FAR_ZEROED, np.zeros(3), 0.0),)
     return ()
+
+
+def _zeroed(ctx, center):
+    """the library reported the origin as centre of a solid that is nowhere near it (named finding)"""
+    return (ctx.below_tol_zero or ctx.beyond_1e12_sizes) and not np.any(np.asarray(center, dtype=np.float64))
 
 
 def _tensor_expect(ctx, center_override, rho):
@@ -328,25 +418,29 @@ def check_mesh(run, tag, V, F, pname, scale, trans, *, densities, overrides, fra
         m = trimesh.Trimesh(vertices=vb.copy(), faces=fb.copy(), process=False)
         try:
             ncase("mesh", "default")
-            ctx.judge("mesh", "volume", m.volume, ctx.vol, tv)
-            ctx.judge("mesh", "mass", m.mass, ctx.vol, tv)
+            tvt = ctx.tv_t if ctx.solid else None
+            ctx.judge("mesh", "volume", m.volume, ctx.vol, tv, tight=tvt)
+            ctx.judge("mesh", "mass", m.mass, ctx.vol, tv, tight=tvt)
             ctx.judge("mesh", "area", m.area, ex.area, ex.tol_area())
             ctx.judge("mesh", "area_faces_sum", float(np.sum(m.area_faces)), ex.area, ex.tol_area())
             mp = m.mass_properties
-            ctx.judge("mesh_dict", "volume", mp["volume"], ctx.vol, tv)
+            ctx.judge("mesh_dict", "volume", mp["volume"], ctx.vol, tv, tight=tvt)
             ctx.judge("mesh_dict", "density", mp["density"], 1.0, 0.0)
             ctx.judge("mesh", "density", m.density, 1.0, 0.0)
             if ctx.solid:
                 I, tI, aI = _tensor_expect(ctx, None, 1.0)
                 aC = _center_alts(ctx, None)
-                ctx.judge("mesh", "center_mass", m.center_mass, ctx.c, ctx.tc, alts=aC)
-                ctx.judge("mesh", "inertia", m.moment_inertia, I, tI, alts=aI)
-                ctx.judge("mesh_dict", "center_mass", mp["center_mass"], ctx.c, ctx.tc, alts=aC)
-                ctx.judge("mesh_dict", "inertia", mp["inertia"], I, tI, alts=aI)
-                ctx.judge("mesh_dict", "mass", mp["mass"], ctx.vol, tv)
-            # a centre of mass zeroed by the absolute cut-off (named finding) drags every derived
+                tIt = ctx.tight_inertia(I, 1.0)
+                ctx.judge("mesh", "center_mass", m.center_mass, ctx.c, ctx.tc, alts=aC, tight=ctx.tc_t)
+                ctx.judge("mesh_dict", "center_mass", mp["center_mass"], ctx.c, ctx.tc, alts=aC, tight=ctx.tc_t)
+                # the tensor of a far solid whose centre was reported as the origin is not judged again
+                if not (ctx.beyond_1e12_sizes and _zeroed(ctx, m.center_mass)):
+                    ctx.judge("mesh", "inertia", m.moment_inertia, I, tI, alts=aI, tight=tIt)
+                    ctx.judge("mesh_dict", "inertia", mp["inertia"], I, tI, alts=aI, tight=tIt)
+                ctx.judge("mesh_dict", "mass", mp["mass"], ctx.vol, tv, tight=tvt)
+            # a centre of mass zeroed by a volume cut-off (named finding) drags every derived
             # value along: those are not judged again for this mesh
-            derived = ctx.solid and K_ZEROED not in ctx.named
+            derived = ctx.solid and K_ZEROED not in ctx.named and K_FAR_ZEROED not in ctx.named
             if ctx.solid and not derived:
                 run.count("derived_checks_skipped_centre_zeroed")
             if derived:
@@ -377,19 +471,23 @@ def check_mesh(run, tag, V, F, pname, scale, trans, *, densities, overrides, fra
                 ok_ = "no" if ov is None else "yes"
                 ncase("mesh", r, None if ov is None else tuple(ov))
                 run.state("density_override", (dk, ok_))
-                ctx.judge("mesh", "volume", mm.volume, ctx.vol, tv, dk, ok_, density_value=rho, center=ov)
-                ctx.judge("mesh", "mass", mm.mass, ctx.vol * r, tv * r * (1 + 4 * EPS), dk, ok_, density_value=rho, center=ov)
+                ctx.judge("mesh", "volume", mm.volume, ctx.vol, tv, dk, ok_, tight=tvt, density_value=rho, center=ov)
+                ctx.judge("mesh", "mass", mm.mass, ctx.vol * r, tv * r * (1 + 4 * EPS), dk, ok_,
+                          tight=None if tvt is None else tvt * r * (1 + 4 * EPS), density_value=rho, center=ov)
                 ctx.judge("mesh", "density", mm.density, r, 0.0, dk, ok_, density_value=rho, center=ov)
                 if not ctx.solid:
                     continue
                 if ov is None:
                     ctx.judge("mesh", "center_mass", mm.center_mass, ctx.c, ctx.tc, dk, ok_, alts=_center_alts(ctx, None),
-                              density_value=rho)
+                              tight=ctx.tc_t, density_value=rho)
+                    if ctx.beyond_1e12_sizes and _zeroed(ctx, mm.center_mass):
+                        continue
                 else:
                     ctx.judge("mesh", "center_mass", mm.center_mass, np.array(ov, dtype=np.float64), 0.0, dk, ok_,
                               density_value=rho, center=ov)
                 I, tI, aI = _tensor_expect(ctx, ov, r)
-                ctx.judge("mesh", "inertia", mm.moment_inertia, I, tI, dk, ok_, alts=aI, density_value=rho, center=ov)
+                ctx.judge("mesh", "inertia", mm.moment_inertia, I, tI, dk, ok_, alts=aI,
+                          tight=ctx.tight_inertia(I, r) if ov is None else None, density_value=rho, center=ov)
                 if ov is None and not derived:
                     continue
                 # a couple of frames under density / override as well
@@ -449,8 +547,10 @@ def check_mesh(run, tag, V, F, pname, scale, trans, *, densities, overrides, fra
                 route = "free" + ("_crosses" if with_cross else "") + ("_skip" if skip else "")
                 ncase(route, r, None if ov is None else tuple(ov))
                 extra = dict(density_value=rho, center=ov, skip_inertia=skip, with_crosses=with_cross)
-                ctx.judge(route, "volume", res["volume"], ctx.vol, tv, dk, ok_, **extra)
-                ctx.judge(route, "mass", res["mass"], ctx.vol * r, tv * r * (1 + 4 * EPS), dk, ok_, **extra)
+                tvt = ctx.tv_t if ctx.solid else None
+                ctx.judge(route, "volume", res["volume"], ctx.vol, tv, dk, ok_, tight=tvt, **extra)
+                ctx.judge(route, "mass", res["mass"], ctx.vol * r, tv * r * (1 + 4 * EPS), dk, ok_,
+                          tight=None if tvt is None else tvt * r * (1 + 4 * EPS), **extra)
                 ctx.judge(route, "density", res["density"], r, 0.0, dk, ok_, **extra)
                 if skip and res["inertia"] is not None:
                     run.violation("route=%s qty=inertia sym=present_with_skip_inertia" % route,
@@ -458,12 +558,16 @@ def check_mesh(run, tag, V, F, pname, scale, trans, *, densities, overrides, fra
                 if not ctx.solid:
                     continue
                 if ov is None:
-                    ctx.judge(route, "center_mass", res["center_mass"], ctx.c, ctx.tc, dk, ok_, alts=_center_alts(ctx, None), **extra)
+                    ctx.judge(route, "center_mass", res["center_mass"], ctx.c, ctx.tc, dk, ok_, alts=_center_alts(ctx, None),
+                              tight=ctx.tc_t, **extra)
+                    if ctx.beyond_1e12_sizes and _zeroed(ctx, res["center_mass"]):
+                        continue
                 else:
                     ctx.judge(route, "center_mass", res["center_mass"], np.array(ov, dtype=np.float64), 0.0, dk, ok_, **extra)
                 if not skip:
                     I, tI, aI = _tensor_expect(ctx, ov, r)
-                    ctx.judge(route, "inertia", res["inertia"], I, tI, dk, ok_, alts=aI, **extra)
+                    ctx.judge(route, "inertia", res["inertia"], I, tI, dk, ok_, alts=aI,
+                              tight=ctx.tight_inertia(I, r) if ov is None else None, **extra)
             ncase("free_area")
             ctx.judge("free", "area", float(np.sum(ttri.area(tri))), ex.area, ex.tol_area())
             ctx.judge("free_crosses", "area", float(np.sum(ttri.area(crosses=ttri.cross(tri)))), ex.area, ex.tol_area())
@@ -471,6 +575,8 @@ def check_mesh(run, tag, V, F, pname, scale, trans, *, densities, overrides, fra
             run.violation("route=free sym=exception:%s" % type(e).__name__,
                           "triangles.mass_properties raised %r" % (e,), ctx.base_case(route="free"))
     run.note("worst_ratio_to_tolerance", max(run.notes.get("worst_ratio_to_tolerance", 0.0), ctx.worst))
+    run.note("worst_ratio_to_translation_invariant_tolerance",
+             max(run.notes.get("worst_ratio_to_translation_invariant_tolerance", 0.0), getattr(ctx, "worst_tight", 0.0)))
     return ctx
 
 
@@ -554,6 +660,8 @@ def workload(run):
         if not run.mine(idx):
             continue
         run.count("catalogue_meshes")
+        # solids away from the origin: basic quantities, one density, no override
+        do(tag, V, F, FAR_PLACEMENTS, DENSITIES[2:3], 0, frames[:2])
         do(tag, V, F, PLACEMENTS, DENSITIES, 2, frames)
         # solids below the absolute volume cut-off of the code, well conditioned
         do(tag, V, F, TINY_PLACEMENTS, DENSITIES[2:3], 1, frames[:3])
@@ -565,6 +673,21 @@ def workload(run):
             break
 
     run.note("t_catalogue", round(run.elapsed(), 1))
+    # (1x) extreme scales: area / volume only
+    for tag, V, F in [("box", *gm.box_int((2, 3, 4), (-1, -2, 1))), ("tetra", *gm.tetra(rng)), ("hull", *gm.hull_int(rng, 8))]:
+        for pname, sc in EXTREME_SCALES:
+            idx += 1
+            if run.mine(idx):
+                check_extreme_scale(run, tag, V, F, pname, sc)
+    # (1y) primitive objects
+    for rnd in range(2 if quick else 12):
+        for cls in PRIM_CLASSES:
+            idx += 1
+            if run.mine(idx):
+                check_primitive(run, random_primitive_spec(rng, cls))
+        if run.out_of_time(0.34):
+            break
+    run.note("t_primitives", round(run.elapsed(), 1))
     # (1b) the same integrals after the library itself moved the mesh (values warm or cold)
     k = 0
     for tag, V, F in gm.closed_meshes(rng, count=4 if quick else 20):
@@ -644,6 +767,207 @@ def workload(run):
         fr = [frames[0]] + make_frames(rng, 4)[2:]
         do(tag, V, F, pl, (DENSITIES[int(rng.integers(len(DENSITIES)))],), 1, fr)
     run.count("random_solids", n)
+
+
+
+# ------------------------------------------------------------------------------------------
+# extreme scales: area and volume are ordinary float64 numbers, their squares are not
+
+
+def check_extreme_scale(run, tag, V, F, pname, scale):
+    import trimesh
+    from trimesh import triangles as ttri
+
+    V = np.asarray(V, dtype=np.int64)
+    F = np.asarray(F, dtype=np.int64)
+    ex0 = exact_mass(V, F)  # the integer solid: cancellation ratio of the volume integral (scale invariant)
+    if ex0.volume == 0:
+        return
+    Vf = V.astype(np.float64) * float(scale)
+    with np.errstate(all="ignore"):
+        ex = exact_mass(Vf, F)  # exact values of the scaled floats (the magnitude bounds may overflow: not used)
+    vol, area = float(ex.volume), float(ex.area)
+    tol_a = 64 * EPS * area  # a sum of positive terms
+    tol_v = 64 * EPS * abs(vol) * (ex0.mag_volume / abs(float(ex0.volume)))
+    case = {"route": "extreme_scale", "mesh": tag, "V": V.tolist(), "F": F.tolist(), "placement": pname, "scale": scale}
+    run.case("extreme_scale:%s" % pname, V, F, pname, nontrivial=True)
+    run.state("placement", pname)
+    tri = Vf[F]
+    reads = []
+    try:
+        with np.errstate(all="ignore"):
+            m = trimesh.Trimesh(vertices=Vf.copy(), faces=F.copy(), process=False)
+            reads = [("mesh", "area", float(m.area), area, tol_a),
+                     ("mesh", "area_faces_sum", float(np.sum(m.area_faces)), area, tol_a),
+                     ("mesh", "volume", float(m.volume), vol, tol_v),
+                     ("free", "area", float(np.sum(ttri.area(tri))), area, tol_a),
+                     ("free", "area_crosses", float(np.sum(ttri.area(crosses=ttri.cross(tri)))), area, tol_a),
+                     ("free", "volume", float(ttri.mass_properties(tri, skip_inertia=True)["volume"]), vol, tol_v)]
+    except Exception as e:  # noqa
+        run.violation("route=extreme_scale sym=exception:%s" % type(e).__name__,
+                      "area / volume of a solid scaled by %g raised %r" % (scale, e), case)
+        return
+    for fam, qty, got, want, tol in reads:
+        run.count("comparisons")
+        if np.isfinite(got) and abs(got - want) <= tol:
+            continue
+        q = qty.split("_")[0]
+        if got == 0.0 or not np.isfinite(got) or abs(got - want) <= 1e-3 * abs(want):
+            # zero, inf or a few digits: an intermediate square left the float64 range
+            key = "route=%s qty=%s input=extreme_scale sym=intermediate_out_of_float_range" % (fam, q)
+        else:
+            key = "route=%s qty=%s input=extreme_scale sym=wrong_value" % (fam, q)
+        run.violation(key, "%s (%s) of a solid scaled by %g is %r, exact %r: both are ordinary float64 numbers"
+                      % (qty, fam, scale, got, want), dict(case, qty=qty, got=got, expected=want))
+
+
+# ------------------------------------------------------------------------------------------
+# primitive objects: density / override laws, triangle-derived values
+
+PRIM_CLASSES = ("Box", "Cylinder", "Capsule", "Sphere", "Extrusion")
+
+
+def random_primitive_spec(rng, cls):
+    """JSON-able (class, parameters, rigid placement, density, override offset, warm)"""
+    Rf = gm.frac_to_float(gm.rational_rotation(rng, maxq=4))
+    T = np.eye(4)
+    T[:3, :3] = Rf
+    T[:3, 3] = rng.integers(-20, 21, size=3) * 0.25
+    q = lambda lo, hi: float(rng.integers(lo, hi)) * 0.125  # noqa: E731  dyadic parameters
+    if cls == "Box":
+        par = {"extents": [q(2, 40), q(2, 40), q(2, 40)]}
+    elif cls == "Cylinder":
+        par = {"radius": q(2, 24), "height": q(2, 48), "sections": int(rng.integers(3, 20))}
+    elif cls == "Capsule":
+        par = {"radius": q(2, 16), "height": q(2, 32), "sections": int(rng.integers(4, 9))}
+    elif cls == "Sphere":
+        par = {"radius": q(2, 24), "subdivisions": int(rng.integers(0, 3)),
+               "center": (rng.integers(-20, 21, size=3) * 0.25).tolist()}
+        T = None  # a sphere is placed by its centre
+    else:
+        n = int(rng.integers(3, 8))
+        ang = np.sort(rng.random(n)) * 2 * np.pi
+        rad = 1.0 + rng.integers(0, 8, size=n) * 0.25
+        par = {"polygon": np.round(np.column_stack([rad * np.cos(ang), rad * np.sin(ang)]) * 64) / 64, "height": q(2, 24)}
+        par["polygon"] = par["polygon"].tolist()
+    return {"route": "primitive", "cls": cls, "params": par, "T": None if T is None else T.tolist(),
+            "density": float((0.5, 7.25, 1e3)[int(rng.integers(3))] * (1 + int(rng.integers(3)))),  # never 1
+            "offset": (rng.integers(1, 9, size=3) * 0.125 * rng.choice([-1, 1], size=3)).tolist(),  # never 0
+            "warm": bool(rng.random() < 0.5)}
+
+
+def build_primitive(spec):
+    from trimesh import primitives
+
+    par = dict(spec["params"])
+    if spec["cls"] == "Extrusion":
+        from shapely.geometry import Polygon
+
+        poly = Polygon(par.pop("polygon"))
+        if not poly.is_valid or poly.area < 1e-3:
+            return None
+        par["polygon"] = poly
+    if spec["T"] is not None:
+        par["transform"] = np.array(spec["T"], dtype=np.float64)
+    return getattr(primitives, spec["cls"])(**par)
+
+
+PRIM_READS = ("mass", "volume", "center_mass", "moment_inertia", "mass_properties", "density", "area")
+
+
+def check_primitive(run, spec):
+    """
+    One primitive object.  (a) values computed from its triangles by base.py (`mass_properties`,
+    `moment_inertia_frame`) against the exact integrals of its own vertices / faces;
+    (b) density rho: mass, moment_inertia, the dict tensor and the frame tensor are rho x the
+    values of a twin object at the default density;  (c) override c' = c + offset: reported back,
+    moment_inertia = (tensor reported before) + m PA(c' - c) - the parallel-axis law from the
+    centroid, whichever solid (ideal or tessellated) the accessor describes.
+    """
+    cls, rho, warm = spec["cls"], float(spec["density"]), bool(spec["warm"])
+    try:
+        twin, obj = build_primitive(spec), build_primitive(spec)
+    except Exception as e:  # noqa
+        run.violation("route=primitive class=%s sym=exception:%s" % (cls, type(e).__name__),
+                      "constructing the primitive raised %r" % (e,), spec)
+        return
+    if obj is None:
+        run.skip("invalid_random_polygon")
+        return
+    run.case("primitive:%s" % cls, repr(spec), nontrivial=True)
+    run.state("primitive_class_warm", (cls, warm))
+    T = np.eye(4)
+    T[:3, :3] = [[0.0, -1.0, 0.0], [1.0, 0.0, 0.0], [0.0, 0.0, 1.0]]
+    T[:3, 3] = [3.0, -2.0, 5.0]
+
+    def law(qty, got, want, sym, what, rel=64 * EPS, also=()):
+        run.count("comparisons")
+        got, want = np.asarray(got, dtype=np.float64), np.asarray(want, dtype=np.float64)
+        for w in (want,) + tuple(also):
+            tol = rel * max(float(np.abs(w).max()), 1e-300)
+            if got.shape == w.shape and np.isfinite(got).all() and np.all(np.abs(got - w) <= tol):
+                return True
+        run.violation("route=primitive class=%s qty=%s sym=%s" % (cls, qty, sym), what,
+                      dict(spec, qty=qty, got=got, expected=want))
+        return False
+
+    try:
+        # the twin stays at the default density / centre: reference of the laws
+        m1, I1, c1 = float(twin.mass), np.array(twin.moment_inertia), np.array(twin.center_mass)
+        D1, F1 = np.array(twin.mass_properties["inertia"]), np.array(twin.moment_inertia_frame(T))
+        # (a) triangle-derived values of the object against the exact integrals of its own mesh
+        ctx = Ctx(run, "primitive:" + cls, np.array(obj.vertices, dtype=np.float64), np.array(obj.faces), "asis", 1.0, 0.0)
+        # the witness is the spec (replay rebuilds the primitive), not its tessellation
+        ctx.V0, ctx.F = np.zeros((0, 3)), np.zeros((0, 3), dtype=np.int64)
+        ctx.case_extra = dict(spec)
+        if warm:
+            for name in PRIM_READS:
+                getattr(obj, name)
+            obj.moment_inertia_frame(T)
+        obj.density = rho
+        route = "primitive:" + cls
+        if ctx.solid:
+            mp = obj.mass_properties
+            tv = ctx.ex.tol_volume()
+            I, tI, _a = _tensor_expect(ctx, None, rho)
+            ctx.judge(route + ":dict", "volume", mp["volume"], ctx.vol, tv, "set")
+            ctx.judge(route + ":dict", "mass", mp["mass"], ctx.vol * rho, tv * rho * (1 + 4 * EPS), "set")
+            ctx.judge(route, "mass", obj.mass, ctx.vol * rho, tv * rho * (1 + 4 * EPS), "set")
+            ctx.judge(route, "density", obj.density, rho, 0.0, "set")
+            ctx.judge(route + ":dict", "center_mass", mp["center_mass"], ctx.c, ctx.tc, "set")
+            ctx.judge(route, "center_mass", obj.center_mass, ctx.c, ctx.tc, "set")
+            ctx.judge(route + ":dict", "inertia", mp["inertia"], I, tI, "set")
+            Ie, tIe, _a = _frame_expect(ctx, T[:3, :3], T[:3, 3], None, rho)
+            ctx.judge(route + ":frame", "inertia", obj.moment_inertia_frame(T), Ie, tIe, "set")
+        # (b) density scales mass and every reported tensor linearly
+        law("mass", obj.mass, rho * m1, "density_not_linear", "mass of a %s at density %g is not density x the mass at density 1" % (cls, rho))
+        law("inertia", obj.moment_inertia, rho * I1, "density_not_linear",
+            "moment_inertia of a %s at density %g is not density x the tensor at density 1" % (cls, rho))
+        law("inertia_dict", obj.mass_properties["inertia"], rho * D1, "density_not_linear",
+            "mass_properties.inertia of a %s does not scale with the density" % cls)
+        law("inertia_frame", obj.moment_inertia_frame(T), rho * F1, "density_not_linear",
+            "moment_inertia_frame of a %s does not scale with the density" % cls)
+        # (c) override: reported back; the tensor moves to it by the parallel-axis law
+        Ib, mb = np.array(obj.moment_inertia), float(obj.mass)
+        ov = c1 + np.array(spec["offset"], dtype=np.float64)
+        obj.center_mass = ov.copy()
+        run.count("comparisons")
+        if not np.array_equal(np.asarray(obj.center_mass, dtype=np.float64), ov):
+            run.violation("route=primitive class=%s qty=center_mass sym=override_not_reported" % cls,
+                          "an overridden center_mass of a %s is not reported back" % cls, dict(spec, got=obj.center_mass, expected=ov))
+        d = ov - c1
+        pa = float(d @ d) * np.eye(3) - np.outer(d, d)
+        # m: the mass the object reports, or density x the (analytic) volume it reports
+        want, want2 = Ib + mb * pa, Ib + rho * float(obj.volume) * pa
+        got = np.array(obj.moment_inertia)
+        if np.any(d):
+            unchanged = np.all(np.abs(got - Ib) <= 64 * EPS * np.abs(Ib).max())
+            law("inertia", got, want, "override_ignored" if unchanged else "override_wrong_value",
+                "moment_inertia of a %s with an overridden center_mass is not the tensor reported before moved to the "
+                "override by the parallel-axis law" % cls, rel=1e-9, also=(want2,))
+    except Exception as e:  # noqa
+        run.violation("route=primitive class=%s sym=exception:%s" % (cls, type(e).__name__),
+                      "mass properties of a primitive raised %r" % (e,), spec)
 
 
 INT_MATRICES = [
@@ -926,6 +1250,14 @@ def check_history(run, tag, V, F, program):
 def replay(run, case):
     if isinstance(case, dict) and case.get("program") is not None:
         check_history(run, case.get("tag", "replay"), np.array(case["V"]), np.array(case["F"]), case["program"])
+        return
+    if isinstance(case, dict) and str(case.get("route", "")).startswith("primitive") and "cls" in case:
+        spec = {k: case[k] for k in ("cls", "params", "T", "density", "offset", "warm")}
+        spec["route"] = "primitive"
+        check_primitive(run, spec)
+        return
+    if isinstance(case, dict) and case.get("route") == "extreme_scale":
+        check_extreme_scale(run, case["mesh"], np.array(case["V"]), np.array(case["F"]), case["placement"], case["scale"])
         return
     if isinstance(case, dict) and case.get("route") == "after_transform":
         check_after_transform(run, case["tag"], np.array(case["V"]), np.array(case["F"]), case["cls"], case["L"], case["t"], case["warm"])
